@@ -246,10 +246,12 @@ class ContiguousBlockAllocator():
         # // this 'if' prevents an error if a Buffer object is freed twice
         if addr is None:
             return
-        if addr < self.addr_offset:
+        if addr < self.addr_offset or addr - self.addr_offset >= self.size:
             # Not an address of this allocator (e.g. a hardware bus index
-            # below the first private bus), the negative list index would
-            # wrap around and free an unrelated block.
+            # below the first private bus, a user managed buffer number
+            # above the client's partition). A negative list index would
+            # wrap around and free an unrelated block, an index past the
+            # end raised IndexError in the middle of the caller's free().
             return
         block = self._array[addr - self.addr_offset]
         if block is not None and block.used:
